@@ -1,20 +1,20 @@
 (* C02 - Local delivery: exactly once, no lost wake-up, truthful send result. *)
 From Ergo Require Import Common.Base Sched.Model Sched.CountFacts Sched.QueueFacts Sched.TokenInv
-  Sched.TokenProofs Sched.IdInv Sched.MailboxProofs.
+  Sched.TokenProofs Sched.IdInv Sched.MailboxProofs Sched.Delayed.
 From Coq Require Import Sorting.Permutation.
 
-Definition reach sched named selfs initok others := run sched (init_cfg named selfs initok others).
+Definition reach sched named lim fb selfs initok others := run sched (init_cfg named lim fb selfs initok others).
 
 (* No lost wake-up.  For any number of concurrent senders (by pid or name), Kill callers,
    self-sends during init and any schedule: once every goroutine has finished, a process that
    is asleep has an empty mailbox - no message waits for later traffic to wake the process. *)
-Theorem C02_no_lost_wakeup : forall sched named selfs initok others,
-  let c0 := init_cfg named selfs initok others in
+Theorem C02_no_lost_wakeup : forall sched named lim fb selfs initok others,
+  let c0 := init_cfg named lim fb selfs initok others in
   Forall (fun p => init_pc p = true) others -> NoDup (init_ids c0) ->
   let c := run sched c0 in
   quiescent c = true -> st (sh c) = Sleep -> forall k, qget (qs (sh c)) k = [].
 Proof.
-  intros sched named selfs initok others c0 Hall Hnd c Hq Hst.
+  intros sched named lim fb selfs initok others c0 Hall Hnd c Hq Hst.
   eapply AllInv_no_lost_wakeup; [apply AllInv_reachable; assumption | assumption | assumption].
 Qed.
 Print Assumptions C02_no_lost_wakeup.
@@ -22,8 +22,8 @@ Print Assumptions C02_no_lost_wakeup.
 (* Exactly once + truthful results, in every reachable configuration: no message is handled
    twice; a message whose send returned an error is never handled nor queued; the accepted
    messages are exactly the handled ones plus those linked in the mailbox. *)
-Theorem C02_accounting : forall sched named selfs initok others,
-  let c0 := init_cfg named selfs initok others in
+Theorem C02_accounting : forall sched named lim fb selfs initok others,
+  let c0 := init_cfg named lim fb selfs initok others in
   Forall (fun p => init_pc p = true) others -> NoDup (init_ids c0) ->
   let c := run sched c0 in
   forall x,
@@ -31,7 +31,7 @@ Theorem C02_accounting : forall sched named selfs initok others,
     (1 <= occ x (errs (sh c)) -> occ x (handled (sh c)) = 0 /\ Qa x (qs (sh c)) = 0) /\
     occ x (oks (sh c)) = occ x (handled (sh c)) + Ql x (qs (sh c)).
 Proof.
-  intros sched named selfs initok others c0 Hall Hnd c.
+  intros sched named lim fb selfs initok others c0 Hall Hnd c.
   eapply AllInv_ids; [apply AllInv_reachable; assumption|].
   intros x. rewrite init_N_occ. apply NoDup_occ_le1. exact Hnd.
 Qed.
@@ -41,15 +41,15 @@ Print Assumptions C02_accounting.
    returned, every send that reported success has been handled exactly once (the handled
    list is a duplicate-free permutation of the accepted ones) and the process sleeps on an
    empty mailbox. *)
-Theorem C02_exactly_once_alive : forall sched named selfs initok others,
-  let c0 := init_cfg named selfs initok others in
+Theorem C02_exactly_once_alive : forall sched named lim fb selfs initok others,
+  let c0 := init_cfg named lim fb selfs initok others in
   Forall (fun p => init_pc p = true) others -> NoDup (init_ids c0) ->
   let c := run sched c0 in
   quiescent c = true -> fin (sh c) = false -> initfail (sh c) = false ->
   st (sh c) = Sleep /\ NoDup (handled (sh c)) /\ Permutation (oks (sh c)) (handled (sh c)).
 Proof.
-  intros sched named selfs initok others c0 Hall Hnd c Hq Hfin Hif.
-  pose proof (AllInv_reachable sched named selfs initok others Hall Hnd) as HA. fold c0 in HA. fold c in HA.
+  intros sched named lim fb selfs initok others c0 Hall Hnd c Hq Hfin Hif.
+  pose proof (AllInv_reachable sched named lim fb selfs initok others Hall Hnd) as HA. fold c0 in HA. fold c in HA.
   assert (HN : forall x, init_N c0 x <= 1) by (intros x; rewrite init_N_occ; apply NoDup_occ_le1; exact Hnd).
   assert (Hst : st (sh c) = Sleep) by (eapply AllInv_quiescent_state; eauto).
   split; [exact Hst|]. split.
@@ -59,9 +59,38 @@ Proof.
 Qed.
 Print Assumptions C02_exactly_once_alive.
 
+(* Bounded mailbox with a fallback process: a message refused by the full mailbox is re-routed
+   to the fallback exactly once (wrapped - the harness checks original pid and tag on the real
+   node), and is then neither queued, nor handled by the original recipient, nor reported as an
+   error; without a fallback it is reported as an error (C02_accounting). *)
+Theorem C02_fallback : forall sched named lim fb selfs initok others,
+  let c0 := init_cfg named lim fb selfs initok others in
+  Forall (fun p => init_pc p = true) others -> NoDup (init_ids c0) ->
+  let c := run sched c0 in
+  forall x, occ x (fbs (sh c)) <= 1 /\
+    (1 <= occ x (fbs (sh c)) ->
+       occ x (handled (sh c)) = 0 /\ Qa x (qs (sh c)) = 0 /\ occ x (errs (sh c)) = 0 /\ occ x (oks (sh c)) = 0).
+Proof.
+  intros sched named lim fb selfs initok others c0 Hall Hnd c.
+  eapply AllInv_fallback; [apply AllInv_reachable; assumption|].
+  intros x. rewrite init_N_occ. apply NoDup_occ_le1. exact Hnd.
+Qed.
+Print Assumptions C02_fallback.
+
+(* Delayed sends: for any number of cancel() calls in any interleaving with the timer: never
+   sent twice; a cancellation that reported success means it is never sent; without one, once the
+   timer has run it was sent exactly once.  (Hypothesis = the contract of time.Timer.Stop.) *)
+Theorem C02_delayed : forall sched stops,
+  let c := d_run sched (d_init stops) in
+  d_sends c <= 1 /\
+  (n_true (d_results c) >= 1 -> d_sends c = 0) /\
+  (d_count is_expire (d_thr c) = 0 -> n_true (d_results c) = 0 -> d_sends c = 1).
+Proof. exact delayed_send_exact. Qed.
+Print Assumptions C02_delayed.
+
 (* non-vacuity: two senders racing the runner's sleep transition; both handled, asleep, empty *)
 Example C02_example :
-  let c0 := init_cfg true [mk_msg 9 2 (BOk 0)] true
+  let c0 := init_cfg true 0 false [mk_msg 9 2 (BOk 0)] true
               [S_load false [mk_msg 1 2 (BOk 0); mk_msg 2 0 (BOk 1)]; S_load true [mk_msg 3 1 (BOk 0)]] in
   let c := run (repeat 0 12 ++ repeat 3 22 ++ [1;1;1;1] ++ repeat 3 3 ++ [2;2;2;2;2;2;1;1;1;1;1;1;1;1] ++ repeat 3 10
                 ++ repeat 4 60 ++ repeat 5 60 ++ repeat 1 20 ++ repeat 2 20 ++ repeat 6 60 ++ repeat 7 60) c0 in
